@@ -494,7 +494,9 @@ class StructureVisitor(ASTTemplate):
         for name, comp in ds.components.items():
             is_kept_id = comp.role == Role.IDENTIFIER and name in group_cols
             is_kept_measure = comp.role == Role.MEASURE and not is_count
-            if is_kept_id or is_kept_measure:
+            # Viral attributes are reduced per group by the aggregation (issue #877).
+            is_viral = comp.role == Role.VIRAL_ATTRIBUTE
+            if is_kept_id or is_kept_measure or is_viral:
                 comps[name] = comp
         if is_count:
             comps["int_var"] = self._make_comp("int_var", Integer)
